@@ -624,8 +624,8 @@ func parseHrdParameters(r *bits.EBSPReader,
 
 func parseSubLayerHrdParameters(r *bits.EBSPReader,
 	cpbCntMinus1 uint8, subPicHrdParamsPresentFlag bool) []SubLayerHrdParameters {
-	slhp := make([]SubLayerHrdParameters, cpbCntMinus1+1)
-	for i := uint8(0); i <= cpbCntMinus1; i++ {
+	slhp := make([]SubLayerHrdParameters, int(cpbCntMinus1)+1)
+	for i := 0; i <= int(cpbCntMinus1); i++ {
 		// values shall be in the range of 0 to 2^32 − 2, inclusive
 		slhp[i].BitRateValueMinus1 = uint32(r.ReadExpGolomb())
 		slhp[i].CpbSizeValueMinus1 = uint32(r.ReadExpGolomb())
@@ -705,7 +705,7 @@ func parseShortTermRPS(r *bits.EBSPReader, idx, numSTRefPicSets byte, sps *SPS) 
 		//deltaRps := (1 - (deltaRpsSign << 1)) * (absDeltaRpsMinus1 + 1)
 		refIdx := idx - deltaIdx
 		numDeltaPocs := sps.ShortTermRefPicSets[refIdx].NumDeltaPocs
-		for j := byte(0); j <= numDeltaPocs; j++ {
+		for j := 0; j <= int(numDeltaPocs); j++ {
 			usedByCurrPicFlag := r.ReadFlag()
 			useDeltaFlag := true
 			if !usedByCurrPicFlag {
